@@ -74,7 +74,7 @@ CLAIMED = {
    "Trusted: go/ssa; readability of declared parts and run-time path shapes are not decided.",
    "loop-provenance (def-use) of ordered collections + disallowed-call rule + guard inspection", "DESIGN.md §4 C18"),
  "C09": ("other",
-   "Structural necessary conditions of 'layout only regroups text': a path-enumerating analysis of every accumulating range loop in the regrouping and text-assembly functions named by the property (typed AST, with element taint, outer-alias recognition and flag correlation) shows that each iteration path transfers its element or skips it only under an emptiness test; all other skips are reported as lossy filters (two documented size filters are listed as known findings with their inputs, one de-duplication is justified in the checker); no path writes an element's text twice; merge loops thread their accumulator; column intervals built from gaps tile.",
+   "Structural necessary conditions of 'layout only regroups text': a path-enumerating analysis of every accumulating range loop in the regrouping and text-assembly functions named by the property (typed AST, with element taint, outer-alias recognition and flag correlation) shows that each iteration path transfers its element or skips it only under an emptiness test; all other skips are reported as lossy filters (two documented size filters are listed as known findings with their inputs, one de-duplication is justified in the checker); no path writes an element's text twice; merge loops thread their accumulator.",
    "Trusted: go/types; the transfer recogniser (append / indexed store / Write*/Add*/Set* calls / composite assignment); callee behaviour inside loop bodies is not followed; multiset equality and ordering are not decided.",
    "iteration-path enumeration on the typed AST (must-transfer) + accumulator threading + edge-kind agreement", "DESIGN.md §4 C09"),
  "C12": ("other",
